@@ -30,6 +30,11 @@
 (*        where the slope is 0 and phi(h/2) < phi(0), but Armijo holds     *)
 (*        only for T >= 1.  T in {1/2, 2}: inside / outside the narrow     *)
 (*        window  phi(0) + c1 a phi'(0) < phi(a) < phi(0).                 *)
+(* Constraints: every case also carries two feasible intervals [0, c] for  *)
+(* the Constraints option, with c = 3/2 Alpha1 (between the first trial    *)
+(* step and its double) and c = 3 Alpha1 (between the double and the       *)
+(* quadruple): when the first steps are "short" the search wants to expand *)
+(* past c, and the returned step must still be feasible.                   *)
 (* The Go driver runs lineSearch.Run on every printed case and checks the  *)
 (* strong Wolfe conditions at the returned step by re-evaluation.          *)
 (***************************************************************************)
@@ -77,6 +82,8 @@ MonoCase(p, a1, u, j) ==
       k == RDiv(u, RPow(aj, p - 1))
       coefs == Mono(p, k)
   IN [kind |-> "line1d", form |-> "mono", deg |-> p, coefs |-> coefs, alpha1 |-> a1, at_trial |-> j,
+      \* user constraints alpha <= c with c between the first trial step and its doublings
+      cbox |-> RMul(Rat(3, 2), a1), chalf |-> RMul(RInt(3), a1),
       classes |-> [i \in 1..3 |-> Class(coefs, RMul(RInt(IF i = 1 THEN 1 ELSE IF i = 2 THEN 2 ELSE 4), a1))],
       n |-> 1, xstar |-> <<>>, invb2 |-> RZero, lip2 |-> RZero, sc |-> FALSE,
       starts |-> << [x |-> <<0>>, box |-> [lo |-> <<-1>>, hi |-> <<1>>], half |-> [has |-> FALSE, k |-> 1, t |-> RZero, side |-> 1]] >>]
@@ -97,6 +104,7 @@ WindowCase(h, T) ==
       B == RDiv(RSub(Phi(coefs, h), RMul(coefs[1], h)), RMul(h, h))
       at == RDiv(RNeg(coefs[1]), RMul(RInt(2), B))
   IN [kind |-> "line1d", form |-> "window", deg |-> 4, coefs |-> coefs, alpha1 |-> h, at_trial |-> 1,
+      cbox |-> RMul(RInt(2), h), chalf |-> RMul(RInt(2), h),       \* (the zoom phase stays inside [0, h])
       classes |-> <<Class(coefs, h), Class(coefs, at), IF Phi(coefs, at).n < 0 THEN "below_phi0" ELSE "above_phi0">>,
       interpolated |-> at, inside_window |-> Lt(T, ROne),
       n |-> 1, xstar |-> <<>>, invb2 |-> RZero, lip2 |-> RZero, sc |-> FALSE,
@@ -111,6 +119,8 @@ Spec == Init /\ [][Next]_case
 (* certificates, exact *)
 Certificates ==
   /\ REq(case.coefs[1], RInt(-1))                                     \* a descent direction with phi'(0) = -1
+  /\ case.form = "mono" => /\ Lt(case.alpha1, case.cbox) /\ Lt(case.cbox, RMul(RInt(2), case.alpha1))
+                           /\ Lt(RMul(RInt(2), case.alpha1), case.chalf) /\ Lt(case.chalf, RMul(RInt(4), case.alpha1))
   /\ case.form = "mono" =>
        \* the class is the one the closed form in u = k a^(p-1) predicts, and a strong Wolfe step exists
        LET p == case.deg  k == case.coefs[p]
